@@ -97,19 +97,24 @@ func c15Stream(o *out, r *rng, thorough bool) {
 	}
 	defer os.RemoveAll(root)
 	// ---- whitelist: every address outside is closed without a byte, every address inside is served ----
-	nSpecs := 20
+	nSpecs := 24
 	if thorough {
 		nSpecs = 150
 	}
 	specs := []string{"127.0.0.1", "127.0.0.0/8", "127.0.0.0/30", "127.0.0.0/31", "127.0.0.5/32", "127.0.1.0/24", "127.0.0.2-127.0.0.9",
-		"127.0.0.0/255.255.255.0", "127.1.2.3", "::ffff:127.0.0.0/120", "10.0.0.0/8", "::1", "127.0.0.1-127.255.255.254", "127.0.0.16/28"}
+		"127.0.0.0/255.255.255.0", "127.1.2.3", "::ffff:127.0.0.0/120", "10.0.0.0/8", "::1", "127.0.0.1-127.255.255.254", "127.0.0.16/28",
+		"127.0.0.200-127.0.1.10", "127.0.1.250-127.1.0.3"} // ranges whose low octets decrease while the address grows
 	for len(specs) < nSpecs {
 		switch r.intn(3) {
 		case 0:
 			specs = append(specs, fmt.Sprintf("127.%d.%d.%d/%d", r.intn(3), r.intn(3), r.intn(256), 8+r.intn(25)))
 		case 1:
 			a := r.intn(250)
-			specs = append(specs, fmt.Sprintf("127.0.0.%d-127.0.%d.%d", a, r.intn(2), a+r.intn(5)))
+			if r.chance(50) {
+				specs = append(specs, fmt.Sprintf("127.0.0.%d-127.0.%d.%d", a, r.intn(2), a+r.intn(5)))
+			} else {
+				specs = append(specs, fmt.Sprintf("127.0.%d.%d-127.%d.%d.%d", r.intn(2), a, r.intn(2), r.intn(3), r.intn(256)))
+			}
 		default:
 			specs = append(specs, fmt.Sprintf("127.%d.%d.%d", r.intn(2), r.intn(2), 1+r.intn(20)))
 		}
